@@ -24,7 +24,8 @@ ParSide(c, reg) == IF SideOf(reg) = "l" THEN [gm1 |-> c.par.gm1l, gamma |-> c.pa
                                         ELSE [gm1 |-> c.par.gm1r, gamma |-> c.par.gammar]
 EosClauses(c, e) ==
   LET row == RowOf(c) t == TolOf(c).sl IN
-  CASE row.eos = "gamma"    -> EosGamma(c.par, e.v, t)
+  CASE e.reg = "vacuum"     -> {}            \* documented vacuum: rho = p = 0, the specific energy is undefined
+    [] row.eos = "gamma"    -> EosGamma(c.par, e.v, t)
     [] row.eos = "gamma2"   -> EosGamma(ParSide(c, e.reg), e.v, t)
     [] row.eos = "cog"      -> EosCog(c.par, e.v, t)
     [] row.eos = "additive" -> EosAdditive(e.bal, TolOf(c).bal)
@@ -37,8 +38,16 @@ PdeClauses(c, e) ==
   ELSE Chk("PDE.shape", PdeShapeOK(c, e))
        \cup (IF PdeShapeOK(c, e) THEN BalClauses("PDE.", e.bal, PdeNames(c), TolOf(c).bal) ELSE {})
 
+(* undisturbed state ahead of a blast wave: (rho0 r^-omega, 0, 0), evaluated by TLC from the user's parameters *)
+AmbientClauses(c, e) ==
+  IF Has(e, "ambient") /\ "INT" \in Groups(c)
+  THEN  Chk("AHEAD.rho", Same(e.v.rho, Mul(c.par.rho0, PowQ(e.x, QNeg(c.par.omega))), 5))
+   \cup Chk("AHEAD.u", e.v.u.s = 0) \cup Chk("AHEAD.p", e.v.p.s = 0)
+  ELSE {}
+
 PtClauses(c, e) ==
   LET g == Groups(c) IN
+       AmbientClauses(c, e) \cup
        (IF "FIN" \in g THEN Chk("FIN", e.fin) ELSE {})
   \cup (IF e.fin /\ "EOS" \in g THEN EosClauses(c, e) ELSE {})
   \cup (IF e.fin /\ "PDE" \in g THEN PdeClauses(c, e) ELSE {})
@@ -68,10 +77,12 @@ StepClauses(c, p, e) ==
   ELSE {}
 
 (* integral balances (C04, C11) and bounds (C17: values between the constant states) *)
+(* the projection's own quadrature uncertainty (difference between two resolutions), capped at 0.5 % *)
+QuadSlack(e, n) == IF Has(e, "slack") /\ n \in DOMAIN e.slack THEN Min(e.slack[n], 500000) ELSE 0
 IntClauses(c, e) ==
   IF "INT" \in Groups(c)
   THEN Chk("INT.window", e.window_ok)
-       \cup UNION { Chk("INT." \o n, Balanced(e.bal[n], TolOf(c).bal)) : n \in DOMAIN e.bal }
+       \cup UNION { Chk("INT." \o n, Balanced(e.bal[n], TolOf(c).int + QuadSlack(e, n))) : n \in DOMAIN e.bal }
   ELSE {}
 BndClauses(c, e) ==
   IF "ADM" \in Groups(c)
